@@ -108,9 +108,9 @@ impl KvSoundTrait for KvDc {
 }
 
 // @h prop=C15,C08,C11 tier=quick kind=main timeout=600
-// @bounds real Track::process of a spatial track (strength 0, no attenuation) with a DC probe sound over a real Listeners storage of capacity 1: the listener id never resolved, resolves, or is STALE (its slot reused by a newer listener) (symbolic); one 1-frame chunk
+// @bounds real Track::process of a spatial track (strength 0, no attenuation) with a DC probe sound over a real Listeners storage of capacity 1: the listener id never resolved, resolves, or is STALE (its slot reused by a newer listener) (symbolic); optionally nested in another spatial track whose listener does not exist; one 1-frame chunk
 // @funcs Track::process (spatialization branch), Info::listener_info, Arena::get
-// @catches a spatial track whose listener does not exist (never did, dropped, or slot reused) still producing sound
+// @catches a spatial track whose listener does not exist (never did, dropped, or slot reused) still producing sound; a nested spatial track spatialised against its parent's listener instead of its own
 #[kani::proof]
 #[kani::unwind(3)]
 fn c15_spatial_track_without_listener_is_silent() {
@@ -148,10 +148,17 @@ fn c15_spatial_track_without_listener_is_silent() {
 		temp_buffer: vec![Frame::ZERO; 1], internal_buffer_size: 1,
 	};
 	let mut out = [Frame::ZERO; 1];
-	track.process(&mut out, 0.25, &clocks, &modulators, &listeners, None, &mut st);
-	if mode == 1 { assert!(out[0] == Frame::new(1.0, 1.0), "with its listener present the track is heard (strength 0: unpanned)"); }
+	// nested inside another spatial track whose listener does NOT exist: the track's own spatial data must win
+	let nested: bool = kani::any();
+	let parent = if nested {
+		let ghost = { let a: atomic_arena::Arena<u8> = atomic_arena::Arena::new(2); let c = a.controller(); let _k0 = c.try_reserve().unwrap(); let k1 = c.try_reserve().unwrap(); std::mem::forget(a); ListenerId(k1) };
+		Some(SpatialTrackInfo { position: Vec3::new(50.0, 0.0, 0.0), listener_id: ghost })
+	} else { None };
+	track.process(&mut out, 0.25, &clocks, &modulators, &listeners, parent, &mut st);
+	if mode == 1 { assert!(out[0] == Frame::new(1.0, 1.0), "with its own listener present the track is heard (strength 0: unpanned), also when nested in another spatial track"); }
 	else { assert!(out[0] == Frame::ZERO, "if the listener does not exist (never did, was dropped, or its slot was reused) the track is silent"); }
 	kani::cover!(mode == 2, "w:stale-listener-id");
+	kani::cover!(mode == 1 && nested, "w:nested-in-a-spatial-track-with-another-listener");
 	std::mem::forget(track); std::mem::forget(st); std::mem::forget(stc); std::mem::forget(sc); std::mem::forget(tc); std::mem::forget(cw);
 	std::mem::forget(clocks); std::mem::forget(modulators); std::mem::forget(listeners);
 }
